@@ -261,6 +261,20 @@ def replay_history(h: dict, mode: str) -> dict | None:
     return None
 
 
+def _replay_raw(raw):
+    """Decode one emitted history in the worker, replay it hot and cold, hand back only what the verdict needs (the
+    parent never holds the decoded family: a thorough run emits several GB of Python objects)."""
+    import hashlib
+
+    from ..tlc import decode_payload
+
+    h = decode_payload(raw)
+    hot, cold = _replay_both(h)
+    accepted = any(s["ok"] for s in h["hist"])
+    key = hashlib.sha1(json.dumps([h["seed"], [s["op"] for s in h["hist"]]], sort_keys=True).encode()).hexdigest()
+    return hot, cold, accepted, key, (h if (hot is not None or cold is not None) else None)
+
+
 def _replay_both(h):
     out = []
     for mode in ("hot", "cold"):
@@ -496,11 +510,11 @@ def run(ctx: Ctx) -> int:
                        "no verdict on query answers for contents the specification cannot evaluate (a coefficient naming "
                        "a removed parameter): only ids/containers are compared there"]
     hs = []
-    res = ctx.tlc("ModelEdit.tla", "ModelEdit_d1.cfg")
+    res = ctx.tlc("ModelEdit.tla", "ModelEdit_d1.cfg", raw_payloads=True)
     rep.add_tlc(res, "every mutator x 13 representative contents; OneNameSpace, StoichClosed, RejectedUnchanged")
     hs += res.payloads
     for cfgname in (["ModelEdit_vars2.cfg"] if ctx.quick else ["ModelEdit_vars2.cfg", "ModelEdit_vars3.cfg"]):
-        res = ctx.tlc("ModelEdit.tla", cfgname)
+        res = ctx.tlc("ModelEdit.tla", cfgname, raw_payloads=True)
         rep.add_tlc(res, "all histories over the variable-only alphabet (declare / remove / remove keeping stoichiometries / "
                          "update / clamp) from contents with a reaction on two variables, one possibly not declared")
         hs += res.payloads
@@ -508,12 +522,12 @@ def run(ctx: Ctx) -> int:
     if ctx.quick:
         sims = [("ModelEdit_sim.cfg", 20, 8)]
     else:
-        res = ctx.tlc("ModelEdit.tla", "ModelEdit_d2.cfg")
+        res = ctx.tlc("ModelEdit.tla", "ModelEdit_d2.cfg", raw_payloads=True)
         rep.add_tlc(res, "all histories of depth 2 (core alphabet) from 3 seed contents")
         hs += res.payloads
         sims = [("ModelEdit_sim.cfg", 1500, 8)]
     for cfg, num, workers in sims:
-        res = ctx.tlc("ModelEdit.tla", cfg, simulate=f"num={num}", depth=14, seed=ctx.seed, workers=workers)
+        res = ctx.tlc("ModelEdit.tla", cfg, simulate=f"num={num}", depth=14, seed=ctx.seed, workers=workers, raw_payloads=True)
         rep.add_tlc(res, "seeded -simulate histories of depth 12 (full alphabet)")
         hs += res.payloads
     if n_d1 < 5000 or len(hs) - n_d1 < 100:
@@ -521,16 +535,19 @@ def run(ctx: Ctx) -> int:
     rep.notes["histories_depth1"] = n_d1
     rep.notes["histories_deeper"] = len(hs) - n_d1
     rep.exhaustive = False
-    results = pmap(_replay_both, hs, chunk=64)
-    for h, (hot, cold) in zip(hs, results):
+    results = pmap(_replay_raw, hs, chunk=64)
+    for hot, cold, accepted, key, h in results:
         for mode, bad in (("hot", hot), ("cold", cold)):
             rep.replayed += 1
             rep.evaluations += 1
-            if any(s["ok"] for s in h["hist"]):
-                rep.distinct.add(json.dumps([h["seed"], [s["op"] for s in h["hist"]], mode], sort_keys=True))
+            if accepted:
+                rep.distinct.add((key, mode))
             if bad is not None:
                 rep.mismatch({"history": h, "mode": mode}, bad, classify(h, bad, mode))
-    for h in hs[:: max(1, len(hs) // 3)][:3]:
+    from ..tlc import decode_payload
+
+    for raw in hs[:: max(1, len(hs) // 3)][:3]:
+        h = decode_payload(raw)
         rep.sample({"seed": h["seed"], "ops": [s["op"] for s in h["hist"]], "accepted": [s["ok"] for s in h["hist"]]})
     # ---- code -> spec ---------------------------------------------------------------------------
     ntr = 600 if ctx.quick else 8000
